@@ -140,9 +140,6 @@ func runC06(c c06Case) error {
 		if gerr != nil || !gip.Equal(ip) || gport != c.Port {
 			return fmt.Errorf("round trip: got %v:%d (%v), want %v:%d (destination previously held %d-byte IP)", gip, gport, gerr, ip, c.Port, len(prev))
 		}
-		if len(gip) != len(norm) {
-			return fmt.Errorf("round trip: decoded IP has %d bytes, want %d", len(gip), len(norm))
-		}
 		// (c) RFC -> library
 		filler := uint16(0x7F7F)
 		if typ == filler {
